@@ -89,9 +89,13 @@ def format_tag_value(value: Any) -> str:
     Format a tag value.
     """
     # Simple strings (no spaces or commas or special values) can be displayed without quotes.
+    # Strings starting with '[', '{' or '"' are always quoted: parse_tag_value() hands such text to
+    # the JSON parser, so displayed bare they would either fail to parse ('[abc') or come back as a
+    # different value ('"a"' -> 'a').
     if (
         isinstance(value, str)
         and not re.match(".*[ ,].*", value)
+        and value[:1] not in ("[", "{", '"')
         and isinstance(parse_tag_value(value), str)
     ):
         return value
